@@ -350,10 +350,51 @@ def check_dag_case(case, opts):
         return CaseInfo(True, ["shape_dag_%d_rc%d" % (depth, r.rc)])
 
 
+def check_xattr_sweep_case(case, opts):
+    """valid images whose inodes carry many xattrs with key+value lengths sweeping across the points where derived records (PAX
+    length prefixes in sqfs2tar, size fields) gain a digit or a byte"""
+    lo, hi = case["range"]
+    kids = []
+    for n, klen in enumerate((6, 8, 13)):
+        xa = {}
+        for total in range(lo, hi):
+            key = b"user." + (b"%03d" % (total % 1000)) + b"k" * max(0, klen - 8)
+            xa[key] = bytes([33 + total % 90]) * max(0, total - len(key))
+        kids.append(dict(type="file", name=b"f%d" % n, data=b"x", frag=True, xattrs=xa))
+        kids.append(dict(type="slink", name=b"l%d" % n, target=b"f0", xattrs=dict(list(xa.items())[:25])))
+    root = dict(type="dir", name=b"", children=kids, mode=0o755, xattrs=dict(list(kids[0]["xattrs"].items())[:30]))
+    try:
+        img, _ = sqfswrite.build(root, pad=4096)
+    except Exception as e:
+        raise Inconclusive("writer: %r" % e)
+    with Scratch("c05x") as sc:
+        p = os.path.join(sc, "x.sqfs")
+        with open(p, "wb") as fh:
+            fh.write(img)
+        out = os.path.join(sc, "unp")
+        os.mkdir(out)
+        rd = vcommon.tool("asan", "rdsquashfs")
+        cl = []
+        for tool, cmd in (("sqfs2tar", [vcommon.tool("asan", "sqfs2tar"), p]), ("sqfs2tar_nohl", [vcommon.tool("asan", "sqfs2tar"), "-L", "-X", p]), ("xattr", [rd, "-x", "/f1", p]),
+                          ("describe", [rd, "-d", p]), ("unpack", [rd, "-u", "/", "-p", out, "-q", "-X", p])):
+            r = vcommon.run(cmd, timeout=60, cwd=sc, stdout_file=os.path.join(sc, "stdout.bin"))
+            what = "%s on a valid image whose inodes carry %d xattrs each with key+value lengths %d..%d" % (tool, hi - lo, lo, hi - 1)
+            if r.timeout:
+                raise Violation("%s does not terminate" % what, None, sig="hang-shape")
+            if r.sanitizer():
+                raise Violation("%s: %s" % (what, r.sanitizer()), r.err.decode(errors="replace")[-1500:], sig="crash")
+            if r.rc not in (0, 1):
+                raise Violation("%s: exit status %s" % (what, r.rc), r.err.decode(errors="replace")[-500:], sig="odd-status")
+            cl.append("shape_xattrs_%s_rc%d" % (tool, r.rc))
+        return CaseInfo(True, cl)
+
+
 def check_shape_case(case, opts):
     """valid images of an extreme shape written by gensquashfs itself: 'chain' = one directory inside the other, depth levels deep"""
     if case["shape"] == "dag":
         return check_dag_case(case, opts)
+    if case["shape"] == "xattrs":
+        return check_xattr_sweep_case(case, opts)
     depth = case["depth"]
     with Scratch("c05s") as sc:
         lf = os.path.join(sc, "l.txt")
@@ -508,7 +549,8 @@ def main(tier, seed, scale=1.0):
     # valid images of extreme shape: directory chains deep enough to exhaust the stack of a recursive walk (the sanitizer build uses
     # larger frames, the plain build needs about 50000 levels with an 8 MiB stack)
     for sc_ in ([dict(shape="chain", depth=30000), dict(shape="chain", depth=400), dict(shape="chain", depth=4500), dict(shape="chain", depth=60000, variant="plain"),
-                 dict(shape="dag", depth=4), dict(shape="dag", depth=12), dict(shape="dag", depth=40)] if scale >= 0.2 else []):
+                 dict(shape="dag", depth=4), dict(shape="dag", depth=12), dict(shape="dag", depth=40),
+                 dict(shape="xattrs", range=(60, 130)), dict(shape="xattrs", range=(960, 1030))] if scale >= 0.2 else []):
         res.evaluations += 1
         try:
             ci = check_shape_case(sc_, opts)
